@@ -197,17 +197,6 @@ theorem C05_char_constant (d : Dialect) (cfg : LangCfg) (fmt : List FmtPiece) (h
 
 /-! ## (iii) floating-point constants -/
 
-/-- the C / C++ type of a floating constant of `w` bits (`_CFit.to_c_float`) -/
-def floatCType (w : Nat) : CType := if w ≤ 32 then .float else .double
-
-/-- What the rendered quotient denotes: the fraction rounded to nearest-even into binary64 by the division of the two
-exactly represented operands, then (for `float`) converted to binary32 by the cast. -/
-def floatDenotation (w : Nat) (f : Frac) : FVal :=
-  if w ≤ 32 then convertF binary64 binary32 (roundFrac binary64 f) else roundFrac binary64 f
-
-/-- the value lies inside the range of the C type (`|f| ≤ FLT_MAX` / `DBL_MAX`; PyDSDL's range check implies it) -/
-def FloatInRange (w : Nat) (f : Frac) : Prop := if w ≤ 32 then InRange32 f else InRange64 f
-
 /-- **Floating constants whose numerator and denominator are exactly representable in binary64** (the quotient
 branch of `_float_literal_expression`), every width up to 64 bits, every such fraction inside the range of the type:
 the C rendering `((T) (n.0 / d.0))` — alone and as the macro body — and the C++ rendering
@@ -309,14 +298,22 @@ open).  The harness evaluates `reprReadsBack` on every double it meets (`short` 
 The zero results (`0.0`, `-0.0`: fractions below half the smallest subnormal) need no hypothesis.
 -/
 theorem C05_float_fallback_literal_partial (w : Nat) (hw : w ≤ 64) (f : Frac) (hd : 0 < f.den)
-    (hne : (isExact f.num && isExact (f.den : Int)) = false) (hr : FloatInRange w f ∧ InRange64 f)
+    (hne : (isExact f.num && isExact (f.den : Int)) = false) (hr : FloatInRange w f)
     (hrb : ∀ s m E, roundFrac binary64 f = .fin s m E → reprReadsBack m E = true) :
     (∃ s, filterLiteral Gen.cCfg (.frac f) (.float w) = .ok s ∧
       evalStr .c11 s = .ok (.flt (floatCType w) (floatDenotation w f)) ∧
       evalStr .c11 (cMacroBody s) = .ok (.flt (floatCType w) (floatDenotation w f))) ∧
     (∃ s, filterLiteral Gen.cppCfg (.frac f) (.float w) = .ok s ∧
       evalStr .cpp14 s = .ok (.flt (floatCType w) (floatDenotation w f))) := by
-  obtain ⟨m, E, e64, c64⟩ := roundFrac64_fin f hd hr.2
+  have hr64 : InRange64 f := by
+    unfold FloatInRange at hr
+    by_cases h32 : w ≤ 32
+    · rw [if_pos h32] at hr
+      have hab : (2 ^ 24 - 1) * 2 ^ 104 ≤ (2 ^ 53 - 1) * 2 ^ 971 :=
+        Nat.mul_le_mul (by decide) (pow2_le (by decide))
+      exact Nat.le_trans hr (Nat.mul_le_mul_right _ hab)
+    · rw [if_neg h32] at hr; exact hr
+  obtain ⟨m, E, e64, c64⟩ := roundFrac64_fin f hd hr64
   obtain ⟨mant, e10, hdig, hpp, hfl, htok, hrd⟩ := reprReadsBack_inv (hrb _ m E e64)
   have hty := floatTyStr_cases w
   have hlex := lexesAs_repr (decide (f.num < 0)) hdig hpp hfl htok
@@ -331,7 +328,7 @@ theorem C05_float_fallback_literal_partial (w : Nat) (hw : w ≤ 64) (f : Frac) 
     intro d
     unfold floatCType floatDenotation floatTyStr tyOf
     by_cases h32 : w ≤ 32
-    · have hr32 := hr.1
+    · have hr32 := hr
       unfold FloatInRange at hr32
       rw [if_pos h32] at hr32
       simp only [h32, if_true]
@@ -443,5 +440,52 @@ theorem C05_py_float_constant (w : Nat) (f : Frac) (hd : 0 < f.den) (hr : InRang
   refine ⟨_, rfl, ?_, m, E, e64, c64⟩
   show pyEvalStr (intStr f.num ++ " / ".toList ++ natStr f.den) = _
   rw [pyEvalStr_of (lexStr_py_quot f.num f.den) (pyParse_quot f.num f.den _), pyEval_quot f hd e64, e64]
+
+/-! ## non-vacuity: the hypotheses are met by real constants, the renderings are the real strings -/
+
+/-- `int64 X = -9223372036854775808` and `uint64 Y = 18446744073709551615` -/
+example : ∃ s, filterLiteral Gen.cCfg (.frac ⟨-9223372036854775808, 1⟩) (.sint 64) = .ok s ∧
+    evalStr .c11 s = .ok (.int .llong (-9223372036854775808)) ∧
+    evalStr .c11 (cMacroBody s) = .ok (.int .llong (-9223372036854775808)) :=
+  C05_int_literal_exact .c11 Gen.cCfg _ rfl false 64 (by decide) (-9223372036854775808) (by decide)
+example : ∃ s, filterLiteral Gen.cppCfg (.frac ⟨18446744073709551615, 1⟩) (.uint 64) = .ok s ∧
+    evalStr .cpp14 s = .ok (.int .ullong 18446744073709551615) ∧
+    evalStr .cpp14 (cMacroBody s) = .ok (.int .ullong 18446744073709551615) :=
+  C05_int_literal_exact .cpp14 Gen.cppCfg _ rfl true 64 (by decide) 18446744073709551615 (by decide)
+example : filterLiteral Gen.cCfg (.frac ⟨-9223372036854775808, 1⟩) (.sint 64) = .ok "(-9223372036854775807LL - 1)".toList := by
+  decide +kernel
+example : filterLiteral Gen.cCfg (.frac ⟨70000, 1⟩) (.uint 17) = .ok "70000UL".toList := by decide +kernel
+example : filterLiteral Gen.cCfg (charConstant 'a') (.uint 8) = .ok "97U".toList := by decide +kernel
+
+/-- `float32 X = 355 / 113`: quotient branch -/
+example : filterLiteral Gen.cCfg (.frac ⟨355, 113⟩) (.float 32) = .ok "((float) (355.0 / 113.0))".toList := by decide +kernel
+example : filterLiteral Gen.cppCfg (.frac ⟨-355, 113⟩) (.float 64) = .ok "static_cast<double>((-355.0 / 113.0))".toList := by
+  decide +kernel
+example := C05_float_quotient_literal 32 (by decide) ⟨355, 113⟩ (by decide) (by decide +kernel) (by decide +kernel)
+  (by unfold FloatInRange; rw [if_pos (by decide)]; unfold InRange32; decide +kernel)
+
+/-- `float64 X = 5e-324` (PyDSDL: the fraction `5 / 10^324`): decimal fallback, renders `((double) 5e-324)` -/
+example : filterLiteral Gen.cCfg (.frac ⟨5, 10 ^ 324⟩) (.float 64) = .ok "((double) 5e-324)".toList := by decide +kernel
+example := C05_float_fallback_literal_partial 64 (by decide) ⟨5, 10 ^ 324⟩ (Nat.pow_pos (by decide)) (by decide +kernel)
+  (by unfold FloatInRange; rw [if_neg (by decide)]; unfold InRange64; decide +kernel)
+  (by
+    intro s m E h
+    have e : roundFrac binary64 ⟨5, 10 ^ 324⟩ = .fin false 1 0 := by decide +kernel
+    have h' : FVal.fin false 1 0 = FVal.fin s m E := e.symm.trans h
+    obtain ⟨_, h2, h3⟩ := FVal.fin.inj h'
+    rw [← h2, ← h3]
+    decide +kernel)
+/-- results that round to zero read back without any hypothesis -/
+example : reprReadsBack 0 0 = true := by decide +kernel
+
+/-- Before fix 8a97f8c a tiny `float64` constant was rendered as a quotient whose denominator is not a double:
+"floating constant exceeds range" (known finding `float-constant-literal-range`); now it is `5e-324`. -/
+theorem C05_tiny_float_literal_before_fix_out_of_range :
+    ∃ s, filterLiteralBeforeFix Gen.cppCfg (.frac ⟨1, 2 * 10 ^ 323⟩) (.float 64) = .ok s ∧
+      evalStr .cpp14 s = .error .fltLiteralRange :=
+  ⟨_, rfl, by decide +kernel⟩
+
+/-- Python -/
+example : pyConstantExpr (.frac ⟨-355, 113⟩) (.float 32) = .ok "-355 / 113".toList := by decide +kernel
 
 end NunavutVerif.CLiteral
